@@ -1,5 +1,7 @@
 """C03 — the encoder's output is always a conformant stream in the requested format."""
+import copy
 import json
+from io import BytesIO
 
 import codecgen as G
 
@@ -66,9 +68,77 @@ def frag_lines(rng, n):
     return lines, exp
 
 
+def compose_lines(rng, n):
+    """the composed pipeline on the REAL code: make_sequence (non-fragmented pictures without numbers, unconstrained level) must
+    hand the autofill passes exactly the model's plain sequence (header, pictures, end of sequence; no number, offset or version
+    filled in); after autofill_and_serialise_stream the filled fields are read back from the serialised units and the real validator
+    gives its verdict: all compared with the model's `pc` line (autofill model -> stream-structure model)"""
+    from vc2_conformance.encoder import make_sequence
+    from vc2_conformance.bitstream import Stream, autofill_and_serialise_stream
+    from vc2_conformance.bitstream.vc2_autofill import AUTO
+    from vc2_conformance.codec_features import CodecFeatures
+
+    lines, exp = [], []
+    for _ in range(n):
+        # plain features only: nothing in the PAYLOAD that raises the major version (symmetric transform, 8-bit ranges, default
+        # metadata) - the stream-structure model sees parse codes and the profile, not the payload
+        d = G.describe(G.rand_config(rng))
+        d.update(wavelet_ho=d["wavelet"], depth_ho=0, luma_off=0, luma_exc=255, cd_off=128, cd_exc=255, frag=0)
+        d.pop("meta", None)
+        qm = {0: {"LL": rng.randrange(0, 4)}}
+        for lv in range(1, d["depth"] + 1):
+            qm[lv] = {"HL": rng.randrange(0, 4), "LH": rng.randrange(0, 4), "HH": rng.randrange(0, 6)}
+        d["qm"] = qm
+        cf = CodecFeatures(G.from_description(d), name="plain")
+        k = rng.choice([0, 1, 2, 3, 4])
+        pics = G.rand_pictures(rng, cf, n=k) if k else []
+        if k and int(cf["picture_coding_mode"]) == 1 and rng.random() < 0.25:
+            pics = pics[:-1]       # an odd number of fields: both must reject
+        for p in pics:
+            p.pop("pic_num", None)
+        from vc2_conformance.encoder.exceptions import UnsatisfiableCodecFeaturesError
+
+        try:
+            seq = make_sequence(cf, copy.deepcopy(pics))
+        except UnsatisfiableCodecFeaturesError:
+            continue
+        shape_ok = True
+        for du in seq["data_units"]:
+            pi = du["parse_info"]
+            if pi.get("next_parse_offset", AUTO) is not AUTO or pi.get("previous_parse_offset", AUTO) is not AUTO:
+                shape_ok = False
+            if "picture_parse" in du and du["picture_parse"]["picture_header"].get("picture_number", AUTO) is not AUTO:
+                shape_ok = False
+            if "sequence_header" in du and du["sequence_header"]["parse_parameters"].get("major_version", AUTO) is not AUTO:
+                shape_ok = False
+        codes = [int(du["parse_info"]["parse_code"]) for du in seq["data_units"]]
+        f = BytesIO()
+        stream = Stream(sequences=[seq])
+        autofill_and_serialise_stream(f, stream)
+        data = f.getvalue()
+        offs = [du["parse_info"]["_offset"] for du in seq["data_units"]] + [len(data)]
+        lens = [b - a for a, b in zip(offs, offs[1:])]
+        verdict, out = G.decode(data)
+        fields = []
+        for du, o in zip(seq["data_units"], offs):
+            nxt = int.from_bytes(data[o + 5:o + 9], "big")
+            prv = int.from_bytes(data[o + 9:o + 13], "big")
+            pn = du["picture_parse"]["picture_header"]["picture_number"] if "picture_parse" in du else "-"
+            mv = du["sequence_header"]["parse_parameters"]["major_version"] if "sequence_header" in du else "-"
+            fields.append("%d,%d,%d,%s,%s" % (int(du["parse_info"]["parse_code"]), nxt, prv, pn, mv))
+        prof = int(cf["profile"])
+        want_codes = [0] + [0xE8 if prof == 3 else 0xC8] * len(pics) + [0x10]
+        if not shape_ok or codes != want_codes:
+            exp.append("SHAPE codes=%s auto-fields-left-alone=%s" % (codes, shape_ok))
+        else:
+            exp.append("%s | %s" % ("OK" if verdict == "OK" else verdict.split(":")[0], " ; ".join(fields)))
+        lines.append("pc %d %d %d %s" % (prof, int(cf["picture_coding_mode"]), lens[0], " ".join(map(str, lens[1:-1]))))
+    return lines, exp
+
+
 class Prop(object):
     id = "C03"
-    lean_modules = ["VC2.Props.C03"]
+    lean_modules = ["VC2.Props.C03", "VC2.Props.C03Compose"]
     status = "partial"
     rule = ("random small configurations over profiles, lossless/lossy, all 7x7 wavelet pairs, symmetric/asymmetric depths, 1-4 x 1-3 slices, fragment sizes (0, 1, 2, all, more than all), "
             "4:4:4/4:2:2/4:2:0, progressive/interlaced sources, frames/fields, custom and default quantisation matrices, depths 1-16, picture_bytes from the minimum upwards, "
@@ -83,6 +153,9 @@ class Prop(object):
         self._bad = None
         lines, exp = frag_lines(rng, ctx.n(250, 4000))
         ctx.diff("fr fragment layout (count, x offset, y offset per fragment): model == make_fragment_parse_data_units", lines, exp)
+        lines, exp = compose_lines(rng, ctx.n(250, 4000))
+        ctx.diff("pc the composed pipeline: REAL make_sequence hands over the model's plain sequence; numbers, offsets and version read back from the "
+                 "serialised stream and the REAL validator's verdict == autofill model -> stream-structure model", lines, exp)
         ctx.corr_names.append("lossless HQ length fields at the 8-bit boundary are serialisable (real make_transform_data_hq_lossless)")
         self._bad = lossless_boundary()
         ctx.evaluations += 15
